@@ -73,7 +73,7 @@ static std::string decorate(Rng& r, const std::string& name, bool change_case, b
 }
 static std::string near_miss(Rng& r, const std::string& name, const std::vector<Client>& clients) {
   std::string o = name;
-  switch (r.uni(16)) {
+  switch (r.uni(19)) {
     case 0: o.erase(std::remove(o.begin(), o.end(), '_'), o.end()); break;
     case 1: std::replace(o.begin(), o.end(), '_', '-'); break;
     case 2: o += "x"; break;
@@ -85,6 +85,38 @@ static std::string near_miss(Rng& r, const std::string& name, const std::vector<
     case 8: o.insert((size_t)r.uni((int)o.size() + 1), 1, '_'); break;
     case 9: if (!clients.empty() && !clients[0].handles.empty()) o = clients[0].handles[0]; else o = "handle"; break;
     case 10: o = o + o; break;
+    case 15: {  // two adjacent bytes changed so that the usual multiplicative string hashes (h*33+c, h*31+c) keep their value
+      if (o.size() >= 2) {
+        size_t i = (size_t)r.uni((int)o.size() - 1);
+        int m = r.bern(0.5) ? 33 : 31;
+        int sgn = r.bern(0.5) ? 1 : -1;
+        int c1 = (unsigned char)o[i] + sgn, c2 = (unsigned char)o[i + 1] - sgn * m;
+        if (c1 > 0 && c1 < 256 && c2 > 0 && c2 < 256) {
+          o[i] = (char)c1;
+          o[i + 1] = (char)c2;
+        } else
+          o += "q";
+      }
+      return o;
+    }
+    case 16: {  // one non-letter with bit 0x20 flipped ('_' <-> DEL, digits <-> control characters): a sloppy case fold accepts it
+      std::vector<size_t> idx;
+      for (size_t i = 0; i < o.size(); ++i)
+        if (!isalpha((unsigned char)o[i])) idx.push_back(i);
+      if (idx.empty()) o += "_";
+      else {
+        size_t i = idx[(size_t)r.uni((int)idx.size())];
+        o[i] = (char)((unsigned char)o[i] ^ 0x20);
+      }
+      return o;
+    }
+    case 17: {  // a solution that exists in other configurations of the library but is compiled out of this one
+      static const char* const off[] = {"ad_cns_2d_crossterms", "ad_cns_3d_crossterms", "ad_cns_3d_les", "ad_cns_3d_les_sph", "convdiff_steady_nosource_1d",
+                                        "navierstokes_3d_incompressible", "navierstokes_3d_incompressible_homogeneous", "navierstokes_3d_incompbouss_homogeneous",
+                                        "navierstokes_3d_transient_sutherland"};
+      o = off[r.uni(9)];
+      break;
+    }
     case 13: {  // a complete catalogue name, a NUL byte, then more characters (only a C++ caller can say this)
       o.push_back('\0');
       o += r.bern(0.5) ? "xyz" : "_2d";
@@ -137,6 +169,7 @@ static int pick_solution(Rng& r, const std::string& profile) {
   return r.pickw(w);
 }
 
+static const std::vector<std::vector<int>>* g_hint_sols = nullptr;  // generator-side: solution per (client, handle)
 static Step gen_op(Rng& r, const Profile& P, int client, int nh, const Plan& plan, bool allow_nested) {
   Step s;
   std::vector<int> w(P.w, P.w + OP__COUNT);
@@ -161,7 +194,8 @@ static Step gen_op(Rng& r, const Profile& P, int client, int nh, const Plan& pla
   if (s.op == OP_SET) {
     s.b = r.bern(0.75) ? 0 : 1;  // admissible / wild
     if (r.bern(0.2)) s.val = (r.u01() - 0.5) * 200.0;
-    if (r.uni(25) == 0) {  // a degenerate state: every scalar parameter gets the same value (often zero)
+    if (r.uni(20) == 0) s.b = 3;  // a signed zero (flipped if one is stored already)
+    else if (r.uni(25) == 0) {  // a degenerate state: every scalar parameter gets the same value (often zero)
       s.b = 2;
       if (r.bern(0.6)) s.val = r.bern(0.5) ? 0.0 : -0.0;
     }
@@ -185,7 +219,12 @@ static Step gen_op(Rng& r, const Profile& P, int client, int nh, const Plan& pla
       default: s.s = " " + base; break;
     }
   }
-  if (s.op == OP_INIT_UNKNOWN) s.s = near_miss(r, g_sols[(size_t)r.uni((int)g_sols.size())].name, plan.clients);
+  if (s.op == OP_INIT_UNKNOWN) {
+    int base = r.uni((int)g_sols.size());
+    if (g_hint_sols && (size_t)client < g_hint_sols->size() && !(*g_hint_sols)[(size_t)client].empty() && r.bern(0.5))
+      base = (*g_hint_sols)[(size_t)client][(size_t)s.h % (*g_hint_sols)[(size_t)client].size()];  // a near miss of what this handle holds
+    s.s = near_miss(r, g_sols[(size_t)base].name, plan.clients);
+  }
   if (allow_nested && (s.op == OP_EVAL_SUP || s.op == OP_EVAL || s.op == OP_PASS_FUNC) && plan.clients.size() > 1 && r.bern(s.op == OP_PASS_FUNC ? 0.9 : 0.4)) {
     int nn = r.range(1, 2);
     bool pair = r.bern(0.35);  // "the callback looks something up on another handle": select it, evaluate there
@@ -300,6 +339,7 @@ static Plan gen_plan(uint64_t seed, const std::string& profile_name, uint64_t ru
     sols[1][0] = sols[0][0];
     if (r.bern(0.5)) p.clients[1].prec = p.clients[0].prec, p.clients[1].lang = p.clients[1].prec ? 0 : p.clients[1].lang;
   }
+  g_hint_sols = &sols;
   std::vector<std::vector<char>> inited;
   for (int c = 0; c < nclients; ++c) inited.push_back(std::vector<char>(p.clients[(size_t)c].handles.size(), 0));
   int nsteps = r.range(P.min_steps, P.max_steps);
@@ -408,6 +448,7 @@ static Plan gen_plan(uint64_t seed, const std::string& profile_name, uint64_t ru
       p.steps.push_back(s);
     }
   }
+  g_hint_sols = nullptr;
   return p;
 }
 #endif
